@@ -6,6 +6,8 @@
    ops (Q,S):  E v -> -     D -> v,t | 0,f     P -> v,t | 0,f     C v -> t|f     N -> size     Z -> t|f
    ops (SQ):   E v -> idx   D -> v,idx | 0,-1  P -> v,idx         C v -> idx     N -> size     Z -> t|f
                V -> v0,v1,... | -
+   X (all):    representation snapshot (verif hook): Q nodeSize,listSize,frontIndex,rearIndex,rearPos;block;...
+               S nodeSize,listSize,topIndex;block;...   SQ front,rear,len    -- compared as kind=fidelity
    The model is polymorphic in the value type; it is instantiated with OCaml ints, zero = 0.
    Every observable here is one the property speaks about, so every mismatch is kind=api. *)
 open Model
@@ -45,6 +47,32 @@ let sout_str = function
   | SOVals l -> String.concat "," (List.map string_of_int l)
 
 let rec len = function [] -> 0 | _ :: t -> 1 + len t
+let rec int_of_nat = function O -> 0 | S n -> 1 + int_of_nat n
+
+let blocks_str bs =
+  String.concat "" (List.map (fun b -> ";" ^ String.concat " " (List.map string_of_int b)) bs)
+
+(* the chain of nodes reachable from frontNode, with the position of rearNode in it *)
+let q_dump (q : int queue) =
+  let heap = Array.of_list q.q_heap in
+  let rear = match q.q_rearNode with None -> -1 | Some a -> int_of_nat a in
+  let rec walk p i acc pos fuel =
+    match p with
+    | None -> (List.rev acc, pos)
+    | Some a ->
+      let a = int_of_nat a in
+      if fuel = 0 || a >= Array.length heap then (List.rev acc, -3)
+      else walk heap.(a).n_next (i + 1) (heap.(a).n_block :: acc) (if a = rear then i else pos) (fuel - 1) in
+  let bs, pos = walk q.q_frontNode 0 [] (if rear = -1 then -1 else -2) (Array.length heap + 1) in
+  Printf.sprintf "%d,%d,%d,%d,%d%s" (int_of_z q.q_nodeSize) (int_of_z q.q_listSize)
+    (int_of_z q.q_frontIndex) (int_of_z q.q_rearIndex) pos (blocks_str bs)
+
+let s_dump (s : int stack) =
+  Printf.sprintf "%d,%d,%d%s" (int_of_z s.s_nodeSize) (int_of_z s.s_listSize) (int_of_z s.s_topIndex)
+    (blocks_str s.s_topNode)
+
+let sq_dump (q : int softq) =
+  Printf.sprintf "%d,%d,%d" (int_of_z q.sq_front) (int_of_z q.sq_rear) (len q.sq_list)
 
 let () =
   let cases = ref 0 and ops = ref 0 and nontrivial = Hashtbl.create 4096 in
@@ -73,6 +101,15 @@ let () =
             | [a; b] -> (trim a, trim b) | [a] -> (trim a, "?") | _ -> (opres, "?") in
           let toks = Array.of_list (split_on op " ") in
           let arg i = int_of_string toks.(i) in
+          if toks.(0) = "X" then begin
+            bump "snapshots_compared";
+            let m = (match !st with Q q -> q_dump q | S s -> s_dump s | SQ q -> sq_dump q) in
+            if res <> "?" && res <> m then begin
+              Printf.printf "MISMATCH line=%d op=%d kind=fidelity what=%s: representation snapshot: implementation %s, model %s\n"
+                !lineno !opno head res m;
+              dead := true
+            end
+          end else
           let expect =
             match !st with
             | (Q _ | S _) as s0 ->
